@@ -24,13 +24,23 @@ package rng
 //@   arith    checked
 //@   ensures  "inverse-of-toRadix36": 0 <= value && value < 36 ==> ((res <= '9' ? res - '0' : res - 'a' + 10) == value && (('0' <= res && res <= '9') || ('a' <= res && res <= 'z')))
 //
+// a seed is accepted exactly when all its characters are base-36 digits (C05); the value wraps silently (C09: still a function of the seed)
 //@ func seedToInt64(seed string) (res int64, err error)
-//@   arith    wrap
-//@   ensures  "total": true
+//@   arith wrap
+//@   ensures  "error-iff-bad-rune": (err == nil) == (forall k int :: {runeAt(seed, k)} 0 <= k && k < runeLen(seed) ==>
+//@                (('0' <= runeAt(seed, k) && runeAt(seed, k) <= '9') || ('a' <= runeAt(seed, k) && runeAt(seed, k) <= 'z')))
+//@   loop 0: invariant 0 <= rangeindex + 1 && rangeindex + 1 <= runeLen(seed) &&
+//@           (forall k int :: {runeAt(seed, k)} 0 <= k && k <= rangeindex ==>
+//@                (('0' <= runeAt(seed, k) && runeAt(seed, k) <= '9') || ('a' <= runeAt(seed, k) && runeAt(seed, k) <= 'z')))
 //
+// Assumed total for every value (C05: a runner is created without panicking whatever the generator returns).
+// The variant of its first loop needs non-linear facts about division by a symbolic divisor, outside the
+// verifier's linear encoding: trusted, with the bounded stand-in B-seed (/verif/bounded).
 //@ func int64ToSeed(value int64) (res string)
 //@   trusted
 //
 //@ func NewRNG(seed string) (res *RNG, err error)
 //@   ensures "rng-or-error": (err == nil) == (res != nil) && (err == nil ==> fresh(res) && res.source != nil)
 //@   assert "global-rand-only-without-seed": at call rand.Int63#0: seed == ""
+//@   ensures "error-iff-bad-seed": (err == nil) == (seed == "" || (forall k int :: {runeAt(seed, k)} 0 <= k && k < runeLen(seed) ==>
+//@                (('0' <= runeAt(seed, k) && runeAt(seed, k) <= '9') || ('a' <= runeAt(seed, k) && runeAt(seed, k) <= 'z'))))
